@@ -56,6 +56,7 @@ func getValueKeys(u *Unit, fn *ssa.Function) map[string]bool {
 
 func runC01(c *Ctx) {
 	u, r := c.U, c.R
+	seedfixC01(c)
 	wr := c.Fn("R-KEYS", "WriteRequest")
 	rd := c.Fn("R-KEYS", "ReadRequest")
 	if wr != nil && rd != nil {
@@ -203,6 +204,7 @@ func runC01(c *Ctx) {
 
 func runC09(c *Ctx) {
 	u, r := c.U, c.R
+	seedfixC09(c)
 	fn := c.Fn("R-SORTED", "(*Server).buildDescribeBatch")
 	if fn == nil {
 		return
